@@ -177,6 +177,13 @@ def scenarios_for(pid, tier, rng, comps):
                         for m in (False, True):
                             sc.append(rf.scenario("c02a-%d" % i, w, ["conn"] * len(w), fl, opts={"alwaysResub": True, "deliverOnRel": m}))
                             i += 1
+        # a very prompt broker (answers are read before Transport.Write returns), with and without ResponseTimeout
+        for w in ([PUB(2)], [PUB(2), PUB(2)], [PUB(1), PUB(2)]):
+            for o in ({"promptAcks": True}, {"promptAcks": True, "respTimeoutMs": 40, "connTimeoutMs": 80}):
+                for fl in ([], [{"k": 2, "o": "cutAfter"}], [{"k": 3, "o": "cutAfter"}]):
+                    for m in (False, True):
+                        sc.append(rf.scenario("c02p-%d" % i, w, ["conn"] * len(w), fl, opts=dict(o, deliverOnRel=m)))
+                        i += 1
         sc += deep_switch("c02d", [PUB(0), PUB(2)], [PUB(2)])
         sc += timeout_drops("c02t", [[PUB(2)], [PUB(2), PUB(2)], [PUB(1), PUB(2)]], ks=range(2, 6))
     elif pid == "C03":
@@ -194,6 +201,17 @@ def scenarios_for(pid, tier, rng, comps):
                         sc.append(g)
                         i += 1
                         sc.append(rf.scenario("c03g-%d" % i, [a, PUB(1), PUB(1)], ["conn", "dial:2", "idle"], fl + [{"k": 5, "o": "lateAck"}]))
+                        i += 1
+        # requests submitted during an outage, among them a Subscribe for a new filter, then a reconnect that re-subscribes
+        # (session lost / AlwaysResubscribe): the new SUBSCRIBE keeps its place behind the older requests
+        for a in (PUB(1), PUB(2)):
+            for o in ("cutBefore", "cutAfter"):
+                for ar in (False, True):
+                    for wl, tm in (([SUB(("a", 1)), a, PUB(1), SUB(("b", 1))], ["conn", "conn", "dial:2", "dial:2"]),
+                                   ([SUB(("a", 1)), a, SUB(("b", 2)), PUB(1)], ["conn", "conn", "dial:2", "dial:2"]),
+                                   ([a, PUB(2), SUB(("b", 1)), UNSUB("b")], ["conn", "dial:2", "dial:2", "dial:2"])):
+                        k = 3 if wl[0]["k"] == "sub" else 2
+                        sc.append(rf.scenario("c03s-%d" % i, wl, tm, [{"k": k, "o": o}], connacks=[] if ar else LOST[0], opts={"alwaysResub": ar}))
                         i += 1
         sc += direct_mode("c03x", rng, n // 5, comps, ["w_pub", "w_mixed"])
         sc += sampled("c03r", rng, n, comps, ["w_pub", "w_mixed", "w_mixed"], connacks=KEPT + [[]] * 4 + (LOST if not q else []),
@@ -288,6 +306,13 @@ def c17_scenarios(rng, n):
                 sc = rf.scenario("c17-%d" % i, wl, tm, faults, inbound=inbound)
                 out.append(sc)
                 i += 1
+    # the acknowledgement of an inbound message cannot be written and the connection is replaced: what the reader
+    # consumed (QoS 2: PUBLISH and its PUBREL) has reached the handler all the same
+    for q, pk in ((1, "PUBACK"), (2, "PUBREC"), (2, "PUBCOMP")):
+        for o in ("cutBefore", "cutAfter"):
+            inbound = [{"g": 1, "after": 0, "q": q, "tag": 101}, {"g": 2, "after": 0, "q": q, "tag": 102}]
+            out.append(rf.scenario("c17-%d" % i, [HANDLE(1), PUB(1)], ["pre", "conn"], [{"p": pk, "n": 1, "o": o}], inbound=inbound))
+            i += 1
     # replaced handlers
     for nre in range(1, 3):
         for p1 in ("pre", "conn"):
@@ -413,7 +438,7 @@ def run(pid, tier):
         "layer2_traces_accepted_by_model": l2_ok, "layer2_drift": [{"trace": d[0], "event": d[1]} for d in drift], "layer2_trace_states": l2_states,
         "scenarios_executed": fam.stats["scenarios"], "distinct_fault_traces": len(fam.distinct),
         "evaluations": fam.stats["scenarios"], "distinct_nontrivial": len(fam.distinct),
-        "rule": "scenario = workload x submit timing x fault plan x dial/CONNACK plan from spec/Plans.tla (fixed core + VERIF_SEED sample + regression corpus); "
+        "rule": "scenario = workload x submit timing x fault plan x dial/CONNACK plan from spec/Plans.tla (fixed core + VERIF_SEED sample + regression corpus) + option blocks: ResponseTimeout with swallowed packets, DirectlyPublishQoS0, AlwaysResubscribe with failing re-subscriptions, broker granting less than requested, prompt / late acknowledgements, retained messages, re-used Message values; "
                 "distinct_nontrivial counts distinct recorded wire traces (packet kinds, tags, DUP, outcomes, dial results) containing at least one fault",
         "infeasible_timing_patterns": fam.stats["skipped_infeasible"], "crashes": fam.stats["crashes"],
         "observers": [p for p in sorted(rf_observers()) if p.startswith(pid)], "observer_failures": fam.observer_hits,
